@@ -2,5 +2,6 @@ SPECIFICATION Spec
 CONSTANTS
   Depths = {1001, 100000}
   ParserDepths = {1000000}
+  CounterDepths = {65535, 65536, 65537}
   Variants = {"closed", "open"}
 CHECK_DEADLOCK FALSE
